@@ -66,6 +66,11 @@ type rigConf struct {
 	Horizon      time.Duration `json:"horizon"` // virtual time allowed after the last deviation
 	MinAge       time.Duration `json:"min_age"`
 	Compression  int           `json:"compression"`
+	// eligibility (C17)
+	IncludeHidden bool     `json:"include_hidden"`
+	Include       []string `json:"include"`
+	Ignore        []string `json:"ignore"`
+	NonHTTPTag    string   `json:"non_http_tag"` // pattern of a tag with another method: such files are not for this sender
 }
 
 // Deviation: at the environment action with this key do something other than the default.
@@ -186,6 +191,8 @@ type rig struct {
 	expect      map[string]string
 	lastContent map[string]string
 	changed     map[string]bool
+	sizes       map[string]int64 // "name hash" -> size of that version
+	recreated   int
 
 	downUntil time.Duration // the receiver is unreachable until then
 	preload   []preloaded   // what the receiver delivered and logged in an earlier run (known only from its log)
@@ -227,6 +234,7 @@ func newRig(conf rigConf, plan Plan) *rig {
 	r.t0 = time.Now()
 	r.outDir = filepath.Join(r.root, "out")
 	r.versions, r.expect, r.lastContent, r.changed = map[string][]string{}, map[string]string{}, map[string]string{}, map[string]bool{}
+	r.sizes = map[string]int64{}
 	for _, f := range conf.Files {
 		vh.WriteFileAt(filepath.Join(r.outDir, f.Name), []byte(f.Data), r.t0.Add(-time.Duration(f.Age)*time.Second))
 		h := vh.MD5([]byte(f.Data))
@@ -439,26 +447,40 @@ func (r *rig) sourceConf() *sts.SourceConf {
 	} else {
 		tag.Order = sts.OrderNone
 	}
+	tags := []*sts.TagConf{tag}
+	if c.NonHTTPTag != "" {
+		tags = []*sts.TagConf{{Pattern: regexp.MustCompile(c.NonHTTPTag), Method: "disk"}, tag}
+	}
+	var include, ignore []*regexp.Regexp
+	for _, p := range c.Include {
+		include = append(include, regexp.MustCompile(p))
+	}
+	for _, p := range c.Ignore {
+		ignore = append(ignore, regexp.MustCompile(p))
+	}
 	return &sts.SourceConf{
-		Name:         c.Name,
-		OutDir:       r.outDir,
-		LogDir:       filepath.Join(r.sendDir, "logs"),
-		Threads:      c.Threads,
-		CacheAge:     24 * time.Hour,
-		MinAge:       c.MinAge,
-		ScanDelay:    c.ScanDelay,
-		Timeout:      time.Hour,
-		Compression:  c.Compression,
-		StatInterval: 0,
-		PollDelay:    c.PollDelay,
-		PollInterval: c.PollInterval,
-		PollAttempts: c.PollAttempts,
-		PollMaxCount: c.PollMaxCount,
-		Target:       &sts.TargetConf{Name: "recv", Host: "recv:1992", Protocol: "http"},
-		Tags:         []*sts.TagConf{tag},
-		BinSize:      units.Base2Bytes(c.BinSize),
-		GroupBy:      regexp.MustCompile(`^([^/]*)`),
-		ErrorBackoff: 1,
+		IncludeHidden: c.IncludeHidden,
+		Include:       include,
+		Ignore:        ignore,
+		Name:          c.Name,
+		OutDir:        r.outDir,
+		LogDir:        filepath.Join(r.sendDir, "logs"),
+		Threads:       c.Threads,
+		CacheAge:      24 * time.Hour,
+		MinAge:        c.MinAge,
+		ScanDelay:     c.ScanDelay,
+		Timeout:       time.Hour,
+		Compression:   c.Compression,
+		StatInterval:  0,
+		PollDelay:     c.PollDelay,
+		PollInterval:  c.PollInterval,
+		PollAttempts:  c.PollAttempts,
+		PollMaxCount:  c.PollMaxCount,
+		Target:        &sts.TargetConf{Name: "recv", Host: "recv:1992", Protocol: "http"},
+		Tags:          tags,
+		BinSize:       units.Base2Bytes(c.BinSize),
+		GroupBy:       regexp.MustCompile(`^([^/]*)`),
+		ErrorBackoff:  1,
 	}
 }
 
@@ -611,12 +633,20 @@ func (r *rig) fileChange(alt string) {
 	op, name := f[1], f[2]
 	p := filepath.Join(r.outDir, name)
 	now := time.Now()
-	old, _ := os.ReadFile(p)
+	old, rerr := os.ReadFile(p)
+	if rerr != nil && (op == "rewrite" || op == "append" || op == "touch") {
+		// the file is gone (delivered and deleted): the name is used again for new content
+		r.recreated++
+		vh.WriteFileAt(p, []byte(fmt.Sprintf("again %d: %s", r.recreated, name)), now)
+		op = "recreate"
+	}
 	switch op {
-	case "rewrite": // same size, new content, new mtime
-		nb := bytes.ToUpper(old)
-		if bytes.Equal(nb, old) {
-			nb = bytes.ToLower(old)
+	case "recreate":
+	case "rewrite": // same size, new content (never seen before), new mtime
+		r.recreated++
+		nb := bytes.Repeat([]byte{byte('a' + r.recreated%26)}, len(old))
+		if len(nb) > 0 {
+			nb[0] = byte('0' + (r.recreated/26)%10)
 		}
 		vh.WriteFileAt(p, nb, now)
 	case "append":
@@ -634,6 +664,7 @@ func (r *rig) fileChange(alt string) {
 		h := vh.MD5(b)
 		r.versions[name] = append(r.versions[name], h)
 		r.expect[name] = h
+		r.sizes[name+" "+h] = int64(len(b))
 	} else {
 		delete(r.expect, name)
 	}
